@@ -54,6 +54,70 @@ var c01Corpus = []string{
 	"(if t then (x -> x + a) else (x -> x - a))(10)",
 }
 
+// c01Sweep enumerates every container construct x every position x every binding construct placed
+// there (deterministic, always run): the slot a binding is compiled for must be the slot it is
+// pushed to, whatever the surrounding construct has pushed before.
+func c01Sweep() []string {
+	bindings := []string{
+		"let q1 = a + %d; q1 * 2",
+		"if a > %d then let q2 = a * 3; q2 else let q3 = a + 7; q3 - 1",
+		"switch a case %d : let q4 = a; q4 + 100 default let q5 = a * 5; q5",
+		"try let q6 = l[a + %d]; q6 catch let q7 = a + 11; q7",
+		"(w -> let q8 = w + a; q8 * %d)(a + 1)",
+		"l.mapReduce(%d, (s1, e1) -> let q9 = s1 + e1; q9)",
+	}
+	// containers with 4 positions @0..@3; unused positions hold plain expressions
+	containers := []string{
+		"max(@0, @1, @2, @3)",
+		"(p0, p1, p2, p3) -> p0 * 1000 + p1 * 100 + p2 * 10 + p3)(@0, @1, @2, @3)",
+		"[@0, @1, @2, @3]",
+		"{k0: @0, k1: @1, k2: @2, k3: @3}",
+		"[@0, @1, @2, @3].map(e9 -> e9 + a).sum()",
+		"l.mapReduce(@0, (s2, e2) -> s2 + e2) + @1 + max(@2, @3)",
+		"{f: (p0, p1, p2, p3) -> p0 * 1000 + p1 * 100 + p2 * 10 + p3}.f(@0, @1, @2, @3)",
+		"[10, 20, 30, 40].top(@0).skip(@1 - @1).append(@2).append(@3)",
+		"[[@0, @1], [@2, @3]][a % 2]",
+		"min(@0, max(@1, @2), @3)",
+		"{x: @0}.put(\"y\", @1).put(\"z\", @2).put(\"w\", @3)",
+		"m.get(if @0 > @1 then \"x\" else \"y\") + @2 + @3",
+	}
+	containers[1] = "(" + containers[1]
+	var res []string
+	n := 0
+	for _, cont := range containers {
+		for pos := 0; pos < 4; pos++ {
+			for _, b := range bindings {
+				n++
+				src := cont
+				for i := 0; i < 4; i++ {
+					fill := fmt.Sprintf("(a + %d)", i+1)
+					if i == pos {
+						fill = fmt.Sprintf(b, n%5)
+						// statement forms are allowed in argument, list and map element positions only
+						if strings.Contains(cont, "@"+itoa(i)+" >") || strings.Contains(cont, "> @"+itoa(i)) || strings.Contains(cont, "- @"+itoa(i)) || strings.Contains(cont, "@"+itoa(i)+" -") || strings.Contains(cont, "+ @"+itoa(i)) || strings.Contains(cont, "@"+itoa(i)+" +") {
+							fill = "(v0 -> " + fill + ")(0)"
+						}
+					}
+					src = strings.ReplaceAll(src, "@"+itoa(i), fill)
+				}
+				res = append(res, src)
+				// the same after a deeper call has left stale values in the slots above the frame
+				res = append(res, "let stale = max(a, a + 1, a + 2, a + 3, a + 4, a + 5); ["+src+", stale][0]")
+			}
+		}
+	}
+	// a name captured from the outer scope and bound again later in the same body (nearest binding wins)
+	res = append(res,
+		"let k = a * 2; (y -> let z = k + y; let k = z * 10; k + 1)(1)",
+		"let k = a * 2; func f(y) let z = k + y; let k = z * 10; k + 1; f(1) + k",
+		"let k = a * 2; (y -> (u -> let z = k + u; let k = z * 10; k + y)(2))(1)",
+		"let k = a; l.map(e -> let z = k + e; let k = z * 2; k).sum() + k",
+		"(k -> (y -> let z = k + y; let k = z + 1; k * 2)(k))(a)",
+		"let k = a; let f = (y -> k + y); let g = (k -> f(k) * 2); g(5) + f(1)",
+	)
+	return res
+}
+
 func c01Args(c *Ctx, i int) ([]string, []value.Value) {
 	names := []string{"a", "l", "m", "s", "t"}
 	as := []int64{3, 0, -2, 1, 7}
@@ -174,6 +238,11 @@ func runC01(c *Ctx) {
 	for _, src := range c01Corpus {
 		add(src, 3)
 	}
+	sweep := c01Sweep()
+	for _, src := range sweep {
+		add(src, 2)
+	}
+	c.extra["position_sweep_programs"] = len(sweep)
 	for i := 0; i < n; i++ {
 		g := newProgGen(c.rng)
 		g.enterBody("a", "l", "m", "s", "t")
